@@ -169,3 +169,67 @@ def replay(ctx, path, mine):
                 print(json.dumps(aux[tid][step - 1], default=str)[:1500])
     print('--- source\n' + rp.get('src', ''))
     return ctx.finish()
+
+
+# -- binding demonstration (DESIGN 2.9a): corrupt one recorded field of an accepted trace -----------------------------------
+
+def selftest(ctx, props=('C07', 'C08')):
+    """Record a few traces, check TLC accepts them (modulo known findings), then corrupt single logged fields and require
+    TLC to reject exactly the step touched, naming the clause that guards the field."""
+    import copy as _copy
+    conf = {'cases': 30, 'texts': 12, 'max_per_field': 6}
+    specs = [(1, 3, 1, 11, 'c07'), (2, 7, 1, 12, 'c08'), (3, 1, 0, 13, 'texts')]
+    batch, meta = _shard((0, specs, conf))
+    batch = _strip(batch)
+    base = ctx.validate(_copy.deepcopy(batch), module='ExtractTrace')
+    by_id = {t['id']: t for t in batch['traces']}
+
+    def first(tid, pred):
+        for i, ev in enumerate(by_id[tid]['steps']):
+            if pred(ev) and not any(s == i + 1 for s, _, _ in base[tid]['bad']):
+                return i
+        raise common.Machinery('selftest: no suitable event recorded')
+
+    def other_text(t):
+        return 1 if t != 1 else 2
+
+    plans = []
+    i = first(1, lambda e: e['call'] == 'extract' and e['outcome'] == 'ok')
+    plans.append((1, i, 'Undisturbed.text', lambda e: e['post'].__setitem__('text', other_text(e['post']['text']))))
+    i = first(1, lambda e: e['call'] == 'extract' and e['outcome'] == 'ok' and not e['slice'])
+    plans.append((1, i, 'Faithful.struct', lambda e: e['res'].__setitem__('liveS', by_id[1]['init']['liveS'])))
+    i = first(1, lambda e: e['call'] == 'extract' and e['outcome'] == 'ok' and e['res']['alt'] and not e['slice']
+              and e['res']['kind'] not in ('Name', 'Constant'))
+    plans.append((1, i, 'SelfContained.sync', lambda e: e['res'].__setitem__('embP', by_id[1]['init']['liveP'])))
+    ids = by_id[1]['init']['bagIds']
+    cidx = [k for k, t in enumerate(ids) if batch['ktab'][t - 1]['t'] == 'COMMENT']
+    if cidx:
+        i = first(1, lambda e: e['call'] == 'cut' and e['outcome'] == 'ok' and e['delOutcome'] == 'ok' and e['remBag']['ok']
+                  and e['remBag']['v'][cidx[0]] > 0)
+        plans.append((1, i, 'Conserve.comment', lambda e: e['remBag']['v'].__setitem__(cidx[0], e['remBag']['v'][cidx[0]] - 1)))
+    i = first(1, lambda e: e['call'] == 'cut' and e['outcome'] == 'ok' and e['delOutcome'] == 'ok')
+    plans.append((1, i, 'Cut.remainderIsDelete', lambda e: e['delPost'].__setitem__('text', other_text(e['delPost']['text']))))
+    i = first(2, lambda e: e['call'] == 'cutput' and e['outcome'] == 'ok' and e['cutOutcome'] == 'ok')
+    plans.append((2, i, 'RoundTrip.struct', lambda e: e['post'].__setitem__('liveS', e['mid']['liveS'])))
+    i = first(2, lambda e: e['call'] == 'ownsrc' and e['own']['alt'])
+    plans.append((2, i, 'OwnSrc.struct', lambda e: e['own'].__setitem__('embS', by_id[2]['init']['liveS'])))
+    i = first(3, lambda e: e['call'] == 'put_docstr' and e['outcome'] == 'ok' and e['hasGot'])
+    plans.append((3, i, 'Docstr.readback', lambda e: e.__setitem__('got', other_text(e['got']))))
+    i = first(3, lambda e: e['call'] == 'put_line_comment' and e['outcome'] == 'ok' and e['hasGot'])
+    plans.append((3, i, 'Comment.readback', lambda e: e.__setitem__('got', other_text(e['got']))))
+
+    ok = True
+    for tid, i, clause, corrupt in plans:
+        b = _copy.deepcopy(batch)
+        tr = [t for t in b['traces'] if t['id'] == tid][0]
+        corrupt(tr['steps'][i])
+        b['traces'] = [tr]
+        v = ctx.validate(b, module='ExtractTrace')[tid]
+        new = {(s, c) for s, c, _ in v['bad']} - {(s, c) for s, c, _ in base[tid]['bad']}
+        good = (i + 1, clause) in new and all(s == i + 1 for s, _ in new)
+        print(f'selftest: corrupt step {i + 1} of trace {tid} -> rejected clauses {sorted(new)} (expected {clause}): '
+              f'{"ok" if good else "FAILED"}')
+        ok = ok and good
+    ctx.evals += len(plans)
+    ctx.finish()
+    return 0 if ok else 2
